@@ -28,7 +28,7 @@ RULE = ('Each run: one dataset (1-3-d, float values with NaN/inf, optional ident
 EXPLANATION = ('Model = raw arrays supplied by the harness + expression tree per derived attribute + dependency graph. Checks: '
                'data[derived, view] == numpy evaluation of the tree on the current raw values under the same view (NaN- and inf-aware, relative tolerance 1e-12 for numpy pow); after '
                'remove_component(c) the component list equals the old list minus the transitive dependants of c, in the old order; update_id keeps '
-               'order and the values of every attribute that does not depend on the replaced identifier; reorder keeps values.')
+               'order and the values of every attribute, also of those defined on the replaced identifier; reorder keeps values.')
 REAL = ['glue.core.component_link (ComponentLink, BinaryComponentLink, compute with unbroadcast/broadcast)', 'glue.core.parse (ParsedCommand, '
         'ParsedComponentLink)', 'glue.core.component.DerivedComponent', 'glue.core.data (add/remove/update_id/update_components/reorder)',
         'glue.core.component_id operators']
@@ -382,10 +382,21 @@ def _execute(case, res):
             m.raw[id(new)] = m.raw.pop(id(old))
             if not same(d[new], m.raw[id(new)]):
                 raise Violation('C14/update-id-values', 'values changed when %s was re-identified' % old.label)
-            # attributes defined on the old identifier are not specified to follow it: they leave the checked set
-            for x in list(d.derived_components):
-                if m.depends_on(x, old):
-                    m.orphan.add(id(x))
+            # "replacing an attribute's identifier keeps all values": attributes defined on the old identifier follow it
+            # (until repair 22d4f13 they became unreadable - finding F-C17-4 - and left the checked set here)
+            def subst(t):
+                if t[0] == 'ref':
+                    if t[1] is old:
+                        t[1] = new
+                elif t[0] in OPS:
+                    subst(t[1])
+                    subst(t[2])
+                elif t[0] == 'fn':
+                    for x in t[2]:
+                        subst(x)
+            for t in m.trees.values():
+                subst(t)
+            m.keep.append(old)
             since['update_id'] = True
         elif k == 'upd':
             cs = [c for c in d.main_components if id(c) in m.raw]
